@@ -46,6 +46,7 @@ fn main() {
                 "C04" => rnv::c04::main(&ctx),
                 "C07" => rnv::c07::main(&ctx),
                 "C01" => rnv::c01::main(&ctx),
+                "C14" => rnv::c14::main(&ctx),
                 "C03" => rnv::c02::main(&ctx, rnv::logmodel::Profile::Truncation),
                 _ => {
                     eprintln!("unknown property {}", id);
